@@ -60,8 +60,8 @@ claimed = {
    note="'Eventually' is decided as bounded progress (6 opportunities). hsmsss transport; SECS-I line cuts are exercised by C18's middlebox, not here.",
    technique="fault enumeration by a byte-exact cutting/stalling peer + hook-reported back-off delays vs reference sequence"),
  "C12": dict(level=E,
-   text="17k (quick) / 330k (thorough) snapshot-mutate-resnapshot cases over 11 provenances (constructed, decoded by every copying/owning entry point, re-stamped, derived, control messages): every public accessor/serializer is observed, every slice passed in and every slice handed out (up to capacity) is scribbled on, and the object must still equal an untouched twin; a race phase releases 16 first-call readers by a barrier while a 17th goroutine mutates inputs/outputs (every second case cold: nothing is called on the object before the barrier) (race detector = aliasing witness; shared decode identity checked)." + HELD,
-   note="Encode-once of a constructed body has no API-visible identity; only its consequences (identical bytes, no race report) are judged. Documented ownership transfer (DecodeOwned*) is exempt from input-mutation checks.",
+   text="17k (quick) / 330k (thorough) snapshot-mutate-resnapshot cases over 11 provenances (constructed, decoded by every copying/owning entry point, re-stamped, derived, control messages): every public accessor/serializer is observed, every slice passed in and every slice handed out (up to capacity) is scribbled on, and the object must still equal an untouched twin; a race phase releases 16 first-call readers by a barrier while a 17th goroutine mutates inputs/outputs (every second case cold: nothing is called on the object before the barrier) (race detector = aliasing witness; shared decode identity checked). Encode-at-most-once of a constructed body is observed through a delegating secs2.Item wrapper that counts AppendTo/ToBytes calls while ToBytes / MarshalBinary / AppendBodyTo run on the message and its With* copies (body lengths around 255/256, around 64 KiB, random to 300 kB; one or 8 concurrent first callers; both phases)." + HELD,
+   note="An encoder that bypassed the public Item interface would not be counted by the encode-once wrapper. Documented ownership transfer (DecodeOwned*) is exempt from input-mutation checks.",
    technique="snapshot/mutate/compare monitor against a pristine twin + race detector under barrier-released concurrent readers"),
  "C13": dict(level=E,
    text="36k (quick) / 600k (thorough) messages over the stated item grammar (ASCII items over all 256 byte values incl. every single byte and every ordered pair of grammar-relevant bytes, numeric extremes, empty items, nesting to 64, 63..365 empty lists next to each other and around deep chains, permitted JIS-8/localized text) x all 72 encoder option combinations: strict encode -> strict parse must give one message with the same S/F/W and an Equal body (also compared accessor by accessor); conversely 20k / 300k grammar-generated texts the strict parser accepts are re-encoded under every option set and re-parsed." + HELD,
@@ -72,7 +72,7 @@ claimed = {
    note="Memory cap 4 GiB and the allocation bound for size hints are stated assumptions for 'resource-bounded'. Four genuine defects found here were repaired (panic, size-hint pre-allocation x2 keys, unbounded recursion). Quick-tier danger shards run with a 128 MiB max stack.",
    technique="crash-contained child processes with per-input attribution + allocation/CPU meters + error-position oracle; race detector for instance isolation"),
  "C15": dict(level=E,
-   text="95k (quick) / 1.8M (thorough) error-free item trees (constructed and decoded; all types, 0/1/many elements, nesting, empty-item children, numeric extremes): sml.Encode(item) must be byte-identical to item.ToSML(), and every numeric/boolean/binary leaf rendered by either must parse back (wrapped as a message body) to the same value." + HELD,
+   text="95k (quick) / 1.8M (thorough) error-free item trees (constructed, decoded from the canonical encoding, and decoded from an equivalent non-canonical encoding - TRUE as any non-zero byte, wide length fields; all types, 0/1/many elements, nesting, empty-item children, numeric extremes): sml.Encode(item) must be byte-identical to item.ToSML(), and every numeric/boolean/binary leaf rendered by either must parse back (wrapped as a message body) to the same value." + HELD,
    note="Parse-back is judged per leaf (the property claims it for elements); NaN payload bits excluded.",
    technique="differential runtime monitor between the two renderers + parse-back oracle"),
  "C16": dict(level=E,
